@@ -67,14 +67,37 @@ theorem decode_live (app : App) (s s3 : State) (hl : Live s) (hr : decodeCycle a
         · exact absurd h1 hdr
         · exact ⟨r, by simp only [runners, List.mem_append]; exact Or.inr hr1, hr2⟩
 
+theorem issued_inside {c p : Int} {pushed : List Runner} {x y : Model.Context × BufferedBus Runner}
+    (h : Issued c p pushed x y) : y.2.inside = x.2.inside ++ pushed := by
+  induction h with
+  | nil p x => simp
+  | cons p r rs ctx bus y _ _ _ _ ih =>
+    rw [ih]; simp only [inside_add, List.append_assoc, List.singleton_append]
+
 theorem control_live (s : State) (hl : Live s) (hp : s.cuPendings.items.length ≤ 1) : Live (controlCycle s) := by
   obtain ⟨pushed, i1, i2, i3, fr, _⟩ := controlCycle_spec s hp
   have hbuf := issued_buffer i1
   have hb := issued_backL i1 (W := s.writeBus.inside) hl.backL
-  simp only at hbuf hb
+  have b4 := issued_inside i1
+  simp only at hbuf hb b4
   obtain ⟨c1, c2⟩ := controlCycle_cbus s
-  obtain ⟨_, _, _, b4⟩ := issued_back i1 (W := []) (a := ⟨s.ctx, 0⟩) (by
-    exact ⟨rfl, rfl, sorry, sorry, sorry, sorry, sorry, sorry, sorry, sorry, sorry⟩)
-  sorry
+  have hrun : runners (controlCycle s) = runners s := by
+    simp only [runners, b4, List.append_assoc]
+    rw [← List.append_assoc pushed, i2]
+  refine ⟨?_, ?_, by rw [fr.decodeBus, fr.cycles]; exact hl.ddue, by rw [c2]; exact hl.cql,
+    by rw [fr.decodeBus]; exact hl.dql, by rw [fr.writeBus]; exact hb, by rw [hrun, fr.du]; exact hl.retIn,
+    by rw [fr.fu]; exact hl.fuDone⟩
+  · intro e he
+    rw [hbuf] at he
+    rw [fr.cycles]
+    rcases List.mem_append.mp he with he | he
+    · exact hl.xdue e he
+    · simp only [List.mem_map] at he
+      obtain ⟨r, _, rfl⟩ := he
+      exact Int.le_refl _
+  · intro e he
+    rw [c1] at he
+    rw [fr.cycles]
+    exact hl.cdue e he
 
 end Proofs.Mvp60Sl
